@@ -803,4 +803,141 @@ Proof.
     eapply valid_weaken; [apply valid_readonly; apply readonly_get_file|stab|intros; exact I].
 Qed.
 
+(* ---- C11: what holds in every state every schedule can reach *)
+Definition conc_run (callss : list (list call)) (fs0 : files) (sched : list (nat * option nat)) : list client * sys :=
+  run_conc H sched (map (start H) callss, init_sys fs0).
+
+Lemma Jc_init : forall fs, I1 H U fs -> (forall id c, fs (IdxP id) = Some c -> good_idx fs id c) -> Jc (init_sys fs).
+Proof.
+  intros fs Hi1 Hidx. unfold Jc, init_sys. cbn [sfiles slast].
+  split; [exact Hi1|]. split; [intros out o Ho; discriminate|]. split; [exact Hidx|intros id o Ho; discriminate].
+Qed.
+
+Theorem conc_sound : forall callss fs0 sched,
+  Jc (init_sys fs0) -> Forall (Forall call_ok) callss ->
+  sinv Jc Gc post call_ok callss (conc_run callss fs0 sched).
+Proof.
+  intros callss fs0 sched J0 Hok. unfold conc_run.
+  apply (run_conc_sound Jc Gc Gc_refl Gc_J H post post_stable call_ok call_valid).
+  apply (sinv_init Jc Gc H post call_ok call_valid); assumption.
+Qed.
+
+(* conc_I1: whatever the interleaving, every output file holds a prefix of the content its name
+   hashes, and every index file is empty or holds exactly the entry of a Put whose output is complete *)
+Theorem conc_I1 : forall callss fs0 sched,
+  Jc (init_sys fs0) -> Forall (Forall call_ok) callss ->
+  let s := snd (conc_run callss fs0 sched) in
+  I1 H U (sfiles s) /\ (forall id c, sfiles s (IdxP id) = Some c -> good_idx (sfiles s) id c).
+Proof.
+  intros callss fs0 sched J0 Hok s. destruct (conc_sound callss fs0 sched J0 Hok) as [(Hi1 & _ & Hj3 & _) _].
+  split; [exact Hi1|exact Hj3].
+Qed.
+
+(* an index file holding the entry of a Put of d with complete output: the sequential lookups find d *)
+Lemma good_idx_lookup : forall fs id c, fs (IdxP id) = Some c -> c <> [] -> good_idx fs id c ->
+  exists d tm, PS id d tm /\
+    get_bytes H fs id = Found d (H d) (Z.of_nat (length d)) tm /\
+    get_file fs id = Found (DatP (H d)) (H d) (Z.of_nat (length d)) tm.
+Proof.
+  intros fs id c Ec Hn [->|(d & tm & Hps & -> & Hf)]; [contradiction|].
+  destruct (PS_ok _ _ _ Hps) as (Ud & Li & Ht & Hs).
+  exists d, tm. split; [exact Hps|].
+  assert (entry_of fs id = Some (H d, Z.of_nat (length d), tm)) as Ee.
+  { unfold entry_of. rewrite Ec. apply entry_roundtrip; auto. lia. }
+  unfold get_bytes, get_file. rewrite run_get_bytes, run_get_file. cbn [snd]. rewrite Ee.
+  cbn [bytes_lookup file_lookup]. rewrite Hf, bytes_eqb_refl, Z.eqb_refl. auto.
+Qed.
+
+Lemma Forall2_In_l : forall A B (R : A -> B -> Prop) l1 l2 a,
+  Forall2 R l1 l2 -> In a l1 -> exists b, In b l2 /\ R a b.
+Proof.
+  intros A B R l1 l2 a Hf. induction Hf as [|x y l1 l2 Hxy Hf IH]; intros Hin; [contradiction|].
+  destruct Hin as [->|Hin]; [exists y; split; [left; reflexivity|exact Hxy]|].
+  destruct (IH Hin) as (b & H1 & H2). exists b. split; [right; exact H1|exact H2].
+Qed.
+
+(* quiescent_all_readable: when every client has finished, every id that some client stored is
+   readable, and what is read is the content of some Put of that id *)
+Theorem quiescent_all_readable : forall callss fs0 sched,
+  Jc (init_sys fs0) -> Forall (Forall call_ok) callss ->
+  let st := conc_run callss fs0 sched in
+  finished (fst st) = true ->
+  forall calls id chunks tm, In calls callss -> In (CPut id chunks tm) calls ->
+  exists d tm', PS id d tm' /\
+    get_bytes H (sfiles (snd st)) id = Found d (H d) (Z.of_nat (length d)) tm' /\
+    get_file (sfiles (snd st)) id = Found (DatP (H d)) (H d) (Z.of_nat (length d)) tm'.
+Proof.
+  intros callss fs0 sched J0 Hok st Hfin calls id chunks tm Hin Hput.
+  destruct (conc_sound callss fs0 sched J0 Hok) as [Js Hall]. fold st in Js, Hall.
+  destruct (Forall2_In_l _ _ _ _ _ _ Hall Hin) as (cl & Hcl & Hc).
+  assert (cur cl = None) as Ecur.
+  { unfold finished in Hfin. rewrite forallb_forall in Hfin. specialize (Hfin cl Hcl). destruct (cur cl); [discriminate|reflexivity]. }
+  destruct Hc as (_ & done & Hres & Hcur). rewrite Ecur in Hcur. destruct Hcur as [-> _].
+  destruct (Forall2_In_l _ _ _ _ _ _ Hres Hput) as (r & _ & Hp).
+  destruct r; cbn [post] in Hp; try contradiction. destruct Hp as (_ & c & Ec & Hn).
+  destruct Js as (_ & _ & Hj3 & _). apply (good_idx_lookup _ id c Ec Hn). apply Hj3. exact Ec.
+Qed.
+
+(* restore_invisible, state form: an id whose entry is in place when the clients start is
+   readable in every state any schedule reaches (whatever is being re-stored, by whomever), and
+   what is read is the content of a Put of that id *)
+Theorem restore_invisible_partial : forall callss fs0 sched id,
+  Jc (init_sys fs0) -> Forall (Forall call_ok) callss ->
+  idx_nonempty id (init_sys fs0) ->
+  let s := snd (conc_run callss fs0 sched) in
+  exists d tm', PS id d tm' /\
+    get_bytes H (sfiles s) id = Found d (H d) (Z.of_nat (length d)) tm' /\
+    get_file (sfiles s) id = Found (DatP (H d)) (H d) (Z.of_nat (length d)) tm'.
+Proof.
+  intros callss fs0 sched id J0 Hok Hne s.
+  destruct (conc_sound callss fs0 sched J0 Hok) as [Js _]. fold s in Js.
+  assert (idx_nonempty id s) as (c & Ec & Hn).
+  { unfold s, conc_run. apply (run_conc_stable Jc Gc Gc_refl Gc_J H post post_stable call_ok call_valid callss).
+    - apply (sinv_init Jc Gc H post call_ok call_valid); assumption.
+    - apply idx_nonempty_stable.
+    - exact Hne. }
+  destruct Js as (_ & _ & Hj3 & _). apply (good_idx_lookup _ id c Ec Hn). apply Hj3. exact Ec.
+Qed.
+
+(* lookup_is_some_put, state form: in every state any schedule reaches, a lookup (performed
+   without interference) finds only bytes that a Put stored for that very id, with matching
+   hash and size *)
+Theorem lookup_is_some_put_partial : forall callss fs0 sched id d out size tm,
+  Jc (init_sys fs0) -> Forall (Forall call_ok) callss ->
+  let s := snd (conc_run callss fs0 sched) in
+  get_bytes H (sfiles s) id = Found d out size tm ->
+  exists tm', PS id d tm' /\ out = H d /\ size = Z.of_nat (length d).
+Proof.
+  intros callss fs0 sched id d out size tm J0 Hok s Hg.
+  destruct (conc_sound callss fs0 sched J0 Hok) as [(_ & _ & Hj3 & _) _]. fold s in Hj3.
+  pose proof Hg as Hg'. unfold get_bytes in Hg'. rewrite run_get_bytes in Hg'. cbn [snd] in Hg'.
+  unfold entry_of in Hg'. destruct (sfiles s (IdxP id)) as [c|] eqn:Ec; [|discriminate].
+  assert (c <> []) as Hn by (intros ->; vm_compute in Hg'; discriminate).
+  destruct (good_idx_lookup _ id c Ec Hn (Hj3 _ _ Ec)) as (d0 & t0 & Hps & Hb & _).
+  rewrite Hb in Hg. inversion Hg; subst. exists t0. auto.
+Qed.
+
+(* the statements for lookups that are themselves interleaved, operation by operation, with the
+   writers (and may be given torn views); not proved here *)
+Definition lookup_is_some_put_full_statement : Prop :=
+  forall callss fs0 sched,
+  Jc (init_sys fs0) -> Forall (Forall call_ok) callss -> no_hybrid H U ->
+  (forall d c, U d -> is_prefix c d -> H c = H d -> c = d) -> U [] ->
+  forall i calls cl k id d out size tm,
+  nth_error callss i = Some calls -> nth_error (fst (conc_run callss fs0 sched)) i = Some cl ->
+  nth_error calls k = Some (CGetBytes id) -> nth_error (results cl) k = Some (XBytes (Found d out size tm)) ->
+  out = H d /\ exists tm', PS id d tm'.
+
+Definition restore_invisible_full_statement : Prop :=
+  forall callss fs0 sched id d0,
+  Jc (init_sys fs0) -> Forall (Forall call_ok) callss ->
+  idx_nonempty id (init_sys fs0) ->
+  (forall d tm, PS id d tm -> d = d0 /\ length (digits tm) = 19%nat) ->
+  forall i calls cl k,
+  nth_error callss i = Some calls -> nth_error (fst (conc_run callss fs0 sched)) i = Some cl ->
+  (nth_error calls k = Some (CGetBytes id) -> forall r, nth_error (results cl) k = Some r ->
+     exists tm, r = XBytes (Found d0 (H d0) (Z.of_nat (length d0)) tm)) /\
+  (nth_error calls k = Some (CGetFile id) -> forall r, nth_error (results cl) k = Some r ->
+     exists tm, r = XFile (Found (DatP (H d0)) (H d0) (Z.of_nat (length d0)) tm)).
+
 End CacheRG.
